@@ -11,7 +11,7 @@ for p in sorted(glob.glob(os.path.join(V, "seeded", "C*", "*", "meta.json"))):
 
 
 def rnd(m):
-    return 3 if m["_name"].startswith("r3-") else 2 if m["_name"].startswith("r2-") else 1
+    return 4 if m["_name"].startswith("r4-") else 3 if m["_name"].startswith("r3-") else 2 if m["_name"].startswith("r2-") else 1
 
 
 def first_missed(m):
@@ -25,7 +25,9 @@ for m in metas:
     s = (m.get("summary") or "").replace("|", "\\|").replace("\n", " ")
     s = s if len(s) <= 150 else s[:147] + "..."
     mech = (cr.get("mechanisms") or "").split(";")[0]
-    if m.get("obsolete"):
+    if m.get("out_of_scope"):
+        st = "outside the property's quantifier"
+    elif m.get("obsolete"):
         st = "no longer breaking (defect it needed was fixed)"
     elif not cr.get("caught"):
         st = "MISSED"
@@ -44,7 +46,9 @@ per_round = {}
 for m in metas:
     r = per_round.setdefault(rnd(m), {"n": 0, "first": 0, "after": 0, "missed": 0, "obsolete": 0})
     r["n"] += 1
-    if m.get("obsolete"):
+    if m.get("out_of_scope"):
+        r["oos"] = r.get("oos", 0) + 1
+    elif m.get("obsolete"):
         r["obsolete"] += 1
     elif not m.get("check_result", {}).get("caught"):
         r["missed"] += 1
@@ -70,8 +74,8 @@ worktrees are removed.  When a later `fix:` commit touched the same lines, the p
 Result.""")
 for r in sorted(per_round):
     d = per_round[r]
-    out.append("* round %d: %d confirmed changes - %d caught by the quick check as it stood, %d only after the check was extended, %d missed, %d no longer property-breaking."
-               % (r, d["n"], d["first"], d["after"], d["missed"], d["obsolete"]))
+    out.append("* round %d: %d confirmed changes - %d caught by the quick check as it stood, %d only after the check was extended, %d missed, %d no longer property-breaking, %d outside the property's quantifier."
+               % (r, d["n"], d["first"], d["after"], d["missed"], d["obsolete"], d.get("oos", 0)))
 out.append("""
 Every miss led to a widening of the check (never to a loosening); `tools/recheck_seeded.py [--seeds 1,2,3] all` re-runs every stored change
 against the current checks, and the unchanged tree is swept over several seeds afterwards (`tools/sweep.sh`).  Two stored changes stopped being
